@@ -15,7 +15,8 @@ ASSUMPTIONS = [
     "and the netlist tie covers those inputs too (model = netlist on ALL inputs, no environment restriction)",
     "a request with max_length = 0 is ignored altogether: no data and no `done` pulse (C27_zero_limit_ignored)",
     "the parametric refinement theorem is for generators with a max_length port (max_length_width given -- the only form "
-    "LUNA instantiates); the variant without max_length is tied to the code-shaped model by the netlist tie only",
+    "LUNA instantiates); the variant without max_length is tied to the code-shaped model by the netlist tie only, and only when "
+    "it elaborates at all (it does not on the unchanged tree, see findings/C27-noml-elaboration.json)",
     "constant data given as bytes; payload 8 bits or a multiple of 8 with valid_width = bytes per word (or 1); "
     "big-endian packing is covered by cfg_of_bytes + netlist ties (a partial last big-endian word holds its bytes in the low lanes)",
     "output_length is specified as min(latched max_length, len(data)) (the docstring's meaning); it does not account for start_position",
@@ -127,6 +128,7 @@ def targets(tier):
     ]
     if tier != "quick":
         small += [
+            mk_cg("cg8_len1", b"\x7e", mlw=2),
             mk_cg("cg8_len2", b"\xa5\x5a", mlw=2),
             mk_cg("cg8_len4", b"\x81\x42\x24\x18", mlw=3),
             mk_cg("cg8_len5", b"\x01\x02\x03\x04\x05", mlw=4),
@@ -151,7 +153,7 @@ def targets(tier):
         big += [
             mk_cg("cg8_len64_ml16", bytes(range(64)), mlw=16),
             mk_cg("cg8_len70_ml16", bytes(range(100, 170)), mlw=16),
-            mk_cg("cg8_len1_ml16", b"\x7e", mlw=16) if False else mk_cg("cg8_len2_ml16", b"\x7e\x81", mlw=16),
+            mk_cg("cg8_len2_ml16", b"\x7e\x81", mlw=16),
             mk_cg("cg32_len64_ss", bytes(range(64)), bpw=4, mlw=16, flavour="ss"),
             mk_cg("cg32_len70_be", bytes(range(70)), bpw=4, mlw=16, big=True),
             mk_cg("cg16_len33", bytes(range(33)), bpw=2, mlw=8),
@@ -270,16 +272,18 @@ LEVEL_TEXT = ("Machine-checked proof. (1) For every well-formed generator config
               "the specification machine 'idle / present the answer word by word, each held until ready / pulse done' "
               "(C27_generator_refines); the answer is proved to be the data from the start position onward, min(limit, bytes available) "
               "bytes in total, all words full except the final one, last exactly on the final and first exactly on the first word "
-              "(C27_answer_is_requested_slice); a zero limit emits nothing (C27_zero_limit_ignored). The same for StreamSerializer with "
+              "(C27_answer_is_requested_slice; for byte-wide generators literally data[sp .. sp+min(ml, len-sp)), C27_bytewide_answer_is_slice); "
+              "a zero limit emits nothing (C27_zero_limit_ignored). The same for StreamSerializer with "
               "its runtime array (C27_serializer_refines). (2) For each R-tie configuration the netlist regenerated from /repo is "
               "proved equal to the model on all input histories (no environment restriction), giving C27_<cfg>: netlist = specification "
               "machine under the stated environment.")
 LEVEL_NOTE = ("Trusted: Coq kernel + vm_compute, Amaranth elaboration, nir2coq.py/Netlist.v (validated each run against pysim). "
               "Environment hypotheses: start position within the data and held during the request (serializer: whole request held). "
               "Netlist ties are per configuration (small constants / small max_length widths); realistic sizes (descriptors with 16-bit "
-              "max_length, 32-bit SuperSpeed streams) by simulator correspondence only. The generator variant without max_length is tied "
-              "to the model only (no parametric theorem; LUNA does not instantiate it). The bytes->words packing of the Python constructor "
-              "is modelled by cfg_of_bytes and checked per configuration by the ties, not proved in general; the valid mask of a beat "
+              "max_length, 32-bit SuperSpeed streams) by simulator correspondence only. The generator variant without max_length does not elaborate on "
+              "the unchanged tree (Python AttributeError, findings/C27-noml-elaboration.*; LUNA never instantiates it); with the candidate "
+              "patch it is tied to the model by the netlist tie only (thorough tier), without a parametric theorem. The bytes->words packing of the Python constructor "
+              "is modelled by cfg_of_bytes and checked per configuration by the ties, proved to be the identity only for byte-wide data; the valid mask of a beat "
               "with k bytes is the low k bits (byte-level little-endian unpacking of payloads is not restated as a theorem).")
 TECHNIQUE = ("Rocq proof: simulation relation between a code-shaped FSM model and a list-popping specification machine + closed-form "
              "theorems about the specified answer; certified product-reachability (lock-step) against the regenerated netlist; "
